@@ -102,6 +102,9 @@ type histCase struct {
 	Cfg   cfgSpec `json:"cfg"`
 	Ops   []op    `json:"ops"`
 	Upto  int     `json:"violating_op,omitempty"`
+	// Repeat > 1 (replay only): re-execute the case up to that many times, on a
+	// fresh pipeline each, until it reproduces — for cases that are schedules.
+	Repeat int `json:"repeat,omitempty"`
 }
 
 type outcome struct {
@@ -488,6 +491,8 @@ func (h *hist) Q(o op) outcome {
 		if (po.EDNS || po.ECS != "") && po.Plan.Kind != "local" {
 			if out.EDE13 {
 				r.Count("q_suppressed_ede13", 1)
+				sampleOnce(r, "hist-suppressed", map[string]any{"part": "i stub histories", "what": "query answered from failure state: SERVFAIL + EDE 13, no stub call, while a covering failure may still be inside its envelope",
+					"cfg": h.c.Cfg, "query": *po, "covering_streak": cov.tightK, "covering_kind": cov.tightKind, "covering_bound_ns": cov.tightBound, "history": h.c.Index, "op": idx})
 			} else {
 				r.Violation("suppressed/missing-ede13",
 					fmt.Sprintf("an EDNS query was answered SERVFAIL from failure state (no stub call) without EDE 13; EDE=%v", out.EDE), h.replay(idx))
@@ -524,6 +529,10 @@ func (h *hist) Q(o op) outcome {
 				r.Count("envelope_probe_growth", 1)
 			}
 			r.Max("envelope_probe_streak_max", int64(cov.tightK))
+			if cov.tightK >= 3 && out.Reached > 0 {
+				sampleOnce(r, "hist-expiry-probe", map[string]any{"part": "i stub histories", "what": "probe placed just after the envelope of the covering failure ended reached the stub",
+					"cfg": h.c.Cfg, "query": *po, "covering_streak": cov.tightK, "covering_kind": cov.tightKind, "covering_bound_ns": cov.tightBound, "elapsed_beyond_bound_ns": cov.tightOver, "history": h.c.Index, "op": idx})
+			}
 			r.Distinct(fmt.Sprintf("expiry|%d|%d|k%d|%s", h.c.Cfg.MinMS, h.c.Cfg.MaxMS, cov.tightK, cov.tightKind))
 		case cov.tomb:
 			r.Count("probes_after_reset", 1)
@@ -536,6 +545,8 @@ func (h *hist) Q(o op) outcome {
 			r.Count("local_followup_"+c, 1)
 			if out.Reached > 0 {
 				r.Count("local_followup_reached_"+c, 1)
+				sampleOnce(r, "local-followup", map[string]any{"part": "ii request-local causes", "what": "after a request-local failure another client asking the same question reached the stub",
+					"cause": c, "cfg": h.c.Cfg, "query": *po, "history": h.c.Index, "op": idx})
 			}
 			delete(h.m.local, k)
 		}
@@ -729,6 +740,23 @@ func (h *hist) replay(idx int) histCase {
 
 // replayHist re-executes a recorded history verbatim.
 func replayHist(r *vlib.Run, c histCase) {
+	if c.Repeat > 1 {
+		n := c.Repeat
+		c.Repeat = 0
+		for i := 1; i <= n; i++ {
+			replayHistOnce(r, c, false)
+			if r.Violations() > 0 || r.Counter("burst_stragglers_observed") > 0 {
+				fmt.Printf("replay: reproduced at repetition %d of %d (burst_stragglers_observed=%d)\n", i, n, r.Counter("burst_stragglers_observed"))
+				return
+			}
+		}
+		fmt.Printf("replay: not reproduced in %d repetitions\n", n)
+		return
+	}
+	replayHistOnce(r, c, true)
+}
+
+func replayHistOnce(r *vlib.Run, c histCase, verbose bool) {
 	h, err := newHist(r, c.Index, c.Cfg)
 	if err != nil {
 		r.Inconclusive("replay: " + err.Error())
@@ -740,11 +768,16 @@ func replayHist(r *vlib.Run, c histCase) {
 		switch o.Op {
 		case "q":
 			out := h.Q(o)
+			if !verbose {
+				continue
+			}
 			fmt.Printf("replay: q %s %s cd=%v ecs=%q plan=%+v tag=%s -> reached=%d rcode=%d ede=%v must_reach=%v\n",
 				o.Name, dns.TypeToString[o.Qtype], o.CD, o.ECS, o.Plan, o.Tag, out.Reached, out.Rcode, out.EDE, out.MustReach)
 		case "adv":
 			h.Adv(time.Duration(o.AdvNS))
-			fmt.Printf("replay: advance %v\n", time.Duration(o.AdvNS))
+			if verbose {
+				fmt.Printf("replay: advance %v\n", time.Duration(o.AdvNS))
+			}
 		case "seedq":
 			h.SeedQ(o)
 		case "seedz":
@@ -752,7 +785,9 @@ func replayHist(r *vlib.Run, c histCase) {
 		case "burst":
 			if o.Burst != nil {
 				h.Burst(*o.Burst)
-				fmt.Printf("replay: burst %+v\n", *o.Burst)
+				if verbose {
+					fmt.Printf("replay: burst %+v\n", *o.Burst)
+				}
 			}
 		}
 	}
